@@ -10,7 +10,8 @@ use crate::eval::{self, Tv};
 use crate::gen::{kind_of, Case, Kind};
 use crate::types::*;
 use csv_common::Report;
-use datafusion::arrow::array::{Array, ArrayRef, BooleanArray, Float64Array, Int64Array, StringArray, UInt64Array};
+use datafusion::arrow::array::{Array, ArrayRef, BooleanArray, Float64Array, Int64Array, StringArray, TimestampNanosecondArray, UInt64Array};
+use datafusion::arrow::datatypes::TimeUnit;
 use datafusion::arrow::datatypes::{DataType, Field, Schema};
 use datafusion::arrow::record_batch::RecordBatch;
 use datafusion::datasource::MemTable;
@@ -187,4 +188,52 @@ pub fn engine_float_notes(rt: &tokio::runtime::Runtime, report: &mut Report) {
         Ok(s.join(","))
     });
     report.notes.push(format!("engine semantics [-0.0 < 0.0, -0.0 = 0.0, NaN > 5, 2^53+4 as double <= 2^53+3, 2^53+1 BETWEEN 0.5 AND 2^53, 10 BETWEEN '10' AND 9]: {:?}", r));
+}
+
+/// Ground truth for leg C: the ids of the rows for which DataFusion itself
+/// accepts `WHERE <clause>` on a table with the columns of `metrics`.
+pub fn eval_where(rt: &tokio::runtime::Runtime, clause: &str, rows: &[Row]) -> Result<Vec<usize>, String> {
+    let schema = Arc::new(Schema::new(vec![
+        Field::new("rid", DataType::Int64, false),
+        Field::new("timestamp", DataType::Timestamp(TimeUnit::Nanosecond, Some("UTC".into())), false),
+        Field::new("metric_name", DataType::Utf8, true),
+        Field::new("host", DataType::Utf8, true),
+        Field::new("service", DataType::Utf8, true),
+        Field::new("value_f64", DataType::Float64, true),
+        Field::new("value_i64", DataType::Int64, true),
+        Field::new("value_u64", DataType::UInt64, true),
+    ]));
+    let get = |r: &Row, col: usize| eval::rget(col, r);
+    let st = |col: usize| -> ArrayRef {
+        Arc::new(StringArray::from(rows.iter().map(|r| match get(r, col) { V::Str(s) => Some(s), _ => None }).collect::<Vec<_>>()))
+    };
+    let cols: Vec<ArrayRef> = vec![
+        Arc::new(Int64Array::from((0..rows.len() as i64).collect::<Vec<_>>())),
+        Arc::new(
+            TimestampNanosecondArray::from(rows.iter().map(|r| match get(r, 0) { V::Int(i) => i as i64, _ => 0 }).collect::<Vec<_>>())
+                .with_timezone("UTC"),
+        ),
+        st(7),
+        st(5),
+        st(6),
+        Arc::new(Float64Array::from(rows.iter().map(|r| match get(r, 3) { V::Float(b) => Some(f64::from_bits(b)), _ => None }).collect::<Vec<_>>())),
+        Arc::new(Int64Array::from(rows.iter().map(|r| match get(r, 2) { V::Int(i) => Some(i as i64), _ => None }).collect::<Vec<_>>())),
+        Arc::new(UInt64Array::from(rows.iter().map(|r| match get(r, 4) { V::Int(i) => Some(i as u64), _ => None }).collect::<Vec<_>>())),
+    ];
+    let batch = RecordBatch::try_new(schema.clone(), cols).map_err(|e| e.to_string())?;
+    let sql = format!("SELECT rid FROM t WHERE {} ORDER BY rid", clause);
+    rt.block_on(async {
+        let ctx = SessionContext::new();
+        let table = MemTable::try_new(schema.clone(), vec![vec![batch]]).map_err(|e| e.to_string())?;
+        ctx.register_table("t", Arc::new(table)).map_err(|e| e.to_string())?;
+        let out = ctx.sql(&sql).await.map_err(|e| e.to_string())?.collect().await.map_err(|e| e.to_string())?;
+        let mut ids = Vec::new();
+        for b in out {
+            let a = b.column(0).as_any().downcast_ref::<Int64Array>().ok_or("rid type")?;
+            for i in 0..a.len() {
+                ids.push(a.value(i) as usize);
+            }
+        }
+        Ok(ids)
+    })
 }
